@@ -255,6 +255,14 @@ func (m *Muxer) makeReliableTubeWithID(tType TubeType, tubeID byte, req bool) (*
 		m.log.WithField("tube", tubeID).Debug("tried to make tube while muxer is stopping")
 		return nil, ErrMuxerStopping
 	}
+	// A remotely requested tube has to be handed to Accept. Only the receiver
+	// (holding m.m) adds to tubeQueue, so when it is full the request is refused
+	// here - the peer repeats it - instead of blocking the receiver on the queue,
+	// which would stall every other tube and Stop until somebody accepts.
+	if !req && len(m.tubeQueue) == cap(m.tubeQueue) {
+		m.log.WithField("tube", tubeID).Warn("accept queue full, refusing tube request")
+		return nil, ErrAcceptQueueFull
+	}
 	tubeLog := m.log.WithFields(logrus.Fields{
 		"tube":     tubeID,
 		"reliable": true,
@@ -315,6 +323,14 @@ func (m *Muxer) makeUnreliableTubeWithID(tType TubeType, tubeID byte, req bool) 
 	if state != muxerRunning {
 		m.log.WithField("tube", tubeID).Debug("tried to make tube while muxer is stopping")
 		return nil, ErrMuxerStopping
+	}
+	// A remotely requested tube has to be handed to Accept. Only the receiver
+	// (holding m.m) adds to tubeQueue, so when it is full the request is refused
+	// here - the peer repeats it - instead of blocking the receiver on the queue,
+	// which would stall every other tube and Stop until somebody accepts.
+	if !req && len(m.tubeQueue) == cap(m.tubeQueue) {
+		m.log.WithField("tube", tubeID).Warn("accept queue full, refusing tube request")
+		return nil, ErrAcceptQueueFull
 	}
 	tube := &Unreliable{
 		tType:        tType,
